@@ -226,6 +226,31 @@ def spec_globals(modnames):
     return g
 
 
+CALL_LIMIT_S = 20
+
+
+class CallTimeout(BaseException):
+    pass
+
+
+def call_with_limit(fn, args):
+    """fn(**args) under an alarm: a loop that no longer advances must not take the whole check with it."""
+    import signal
+
+    def on_alarm(signum, frame):
+        raise CallTimeout()
+    try:
+        old = signal.signal(signal.SIGALRM, on_alarm)
+    except ValueError:          # not in the main thread: no limit
+        return fn(**args)
+    signal.alarm(CALL_LIMIT_S)
+    try:
+        return fn(**args)
+    finally:
+        signal.alarm(0)
+        signal.signal(signal.SIGALRM, old)
+
+
 def run_case(fn, contract, args, glob, clauses=None):
     """Run fn(**args); returns dict(pre_ok, exception, failed=[(kind, index, text)], result)."""
     out = {"pre_ok": True, "failed": [], "exception": None}
@@ -246,7 +271,12 @@ def run_case(fn, contract, args, glob, clauses=None):
     g2 = dict(glob)
     g2["__old__"] = snap.old
     try:
-        result = fn(**args)
+        result = call_with_limit(fn, args)
+    except CallTimeout:
+        # the function did not come back: reported as a failed clause of its own (small generated inputs return in milliseconds)
+        out["exception"] = "CallTimeout"
+        out["failed"].append(("terminates", 0, f"returns within {CALL_LIMIT_S} s on a generated input of the stated scope"))
+        return out
     except Exception as e:
         name = type(e).__name__
         out["exception"] = name
